@@ -1,7 +1,7 @@
 ----------------------------- MODULE MC_PadOpt -----------------------------
 EXTENDS PadOpt
 (* cell counts: 1-3 dimensions, axes of length 1 included *)
-Shapes_quick    == {<<1>>, <<2>>, <<4>>, <<3, 2>>, <<1, 3>>, <<2, 1, 3>>}
+Shapes_quick    == {<<1>>, <<4>>, <<3, 2>>, <<2, 1, 3>>}
 Shapes_thorough == {<<1>>, <<2>>, <<3>>, <<5>>, <<2, 2>>, <<3, 2>>, <<1, 3>>, <<4, 1>>, <<2, 3, 2>>, <<3, 1, 2>>, <<1, 2, 4>>}
 (* <<value pattern, validity pattern>>: 1 distinct / 2 repeated values; masks 1 all valid, 2 none, 3 first cell invalid, *)
 (* 4 last cell invalid, 5 one invalid cell inside, 6 one valid cell inside                                              *)
